@@ -100,6 +100,10 @@ func runOidcHistory(g *gwInstance, idp *fakeIdP, ops []oidcOp, tag string) (stri
 			cb := codeBehaviour{kind: o.cb, accessToken: at, claims: map[string]interface{}{}}
 			if o.cb == "noname" {
 				cb.kind = "ok"
+				// no user-name claim, but other identifying claims a lenient reader might fall back to
+				cb.claims["email"] = o.user + "@example.com"
+				cb.claims["name"] = "Full Name of " + o.user
+				cb.claims["nickname"] = o.user
 			} else if o.user != "" {
 				cb.claims["preferred_username"] = o.user
 			}
